@@ -1,7 +1,7 @@
 /* C11, object contexts: a saved object context loads only while the TPM has not been reset, the proof of its hierarchy has
    not been replaced (Clear, ChangeEPS, ChangePPS; a Reset for the null hierarchy), its hierarchy is enabled and — for an
    stClear object — no Restart happened; a loaded context behaves like the original (same Name, same HMAC results). */
-typedef struct { uint8_t *p; uint32_t n; int hier; int stclear; uint8_t mac[32]; uint8_t name[34]; int nl; int id; int epoch; } OCtx;
+typedef struct { uint8_t *p; uint32_t n; int hier; int stclear; uint8_t mac[32]; uint8_t name[34]; int nl; int id; int epoch; int seq; uint8_t part1[40]; int p1l; } OCtx;
 #define C11O_MAX 10
 static OCtx c11o[C11O_MAX]; static int c11o_n, c11o_next;
 static const uint32_t C11_HIER[4] = {RH_OWNER, RH_ENDORSEMENT, RH_PLATFORM, RH_NULL};
@@ -43,6 +43,25 @@ static void c11o_save_new(Buf *b) {
     } else tr("o op=save id=-1 hier=%d stclear=%d rc=%u", hi, stclear, r.rc ? r.rc : 1);
     cmd_begin(b, ST_NO_SESSIONS, CC_FlushContext); b_u32(b, h); run(b);
 }
+
+/* a SHA-256 hash sequence with some data absorbed, saved and flushed: its context lives in the null hierarchy */
+static void c11o_save_seq(Buf *b) {
+    if (c11o_n >= C11O_MAX) { free(c11o[0].p); memmove(&c11o[0], &c11o[1], sizeof(OCtx) * (C11O_MAX - 1)); c11o_n--; }
+    cmd_begin(b, ST_NO_SESSIONS, CC_HashSequenceStart); b_u16(b, 0); b_u16(b, ALG_SHA256); Rsp r = run(b);
+    if (r.rc != 0 || r.len < 14) { tr("o op=create hier=3 stclear=0 rc=%u", r.rc); return; }
+    uint32_t h = g32(r.p + 10);
+    OCtx *c = &c11o[c11o_n]; memset(c, 0, sizeof *c); c->hier = 3; c->id = c11o_next++; c->seq = 1; c->p1l = rnd(40); for (int i = 0; i < c->p1l; i++) c->part1[i] = rnd(256);
+    cmd_begin(b, ST_SESSIONS, CC_SequenceUpdate); b_u32(b, h); auth_pw(b, "", 0); b_2b(b, c->part1, c->p1l); run(b);
+    cmd_begin(b, ST_NO_SESSIONS, CC_ContextSave); b_u32(b, h); r = run(b);
+    if (r.rc == 0 && r.len > 28) {
+        uint64_t seq = g64(r.p + 10); uint32_t sh = g32(r.p + 18); uint32_t hier = g32(r.p + 22); uint8_t proof[64]; int pl = verif_get_proof(hier, proof);
+        tr_begin("s op=ctxblob seq=%llu saved_h=%u hier=%u total=%llu clear=%u", (unsigned long long)seq, sh, hier, (unsigned long long)verif_get_totalResetCount(), verif_get_clearCount());
+        trhex("proof", proof, pl > 0 ? pl : 0); trhex("blob", r.p + 28, g16(r.p + 26)); tr_end();
+        c->n = r.len - 10; c->p = malloc(c->n); memcpy(c->p, r.p + 10, c->n); c11o_n++;
+        tr("o op=save id=%d hier=3 stclear=0 seq=1 saved_h=%u ctxhier=%u rc=0", c->id, sh, hier);
+    } else tr("o op=save id=-1 hier=3 stclear=0 seq=1 rc=%u", r.rc ? r.rc : 1);
+    cmd_begin(b, ST_NO_SESSIONS, CC_FlushContext); b_u32(b, h); run(b);
+}
 /* load a saved object context (unmodified, or with one altered byte); a loaded one is compared with the original and flushed */
 static void c11o_load(Buf *b) {
     if (!c11o_n) return;
@@ -56,7 +75,15 @@ static void c11o_load(Buf *b) {
     }
     Rsp r = c11_load_raw(b, c->p, c->n);
     if (r.rc != 0 || r.len < 14) { tr("o op=load id=%d rc=%u", c->id, r.rc); return; }
-    uint32_t h = g32(r.p + 10); uint8_t mac[32], name[34]; int mok = c11o_hmac(b, h, mac) == 0; int nl = c11o_name(b, h, name);
+    uint32_t h = g32(r.p + 10);
+    if (c->seq) {   /* the loaded sequence continues where the saved one stood */
+        uint8_t part2[24]; int p2l = rnd(24); for (int i = 0; i < p2l; i++) part2[i] = rnd(256);
+        cmd_begin(b, ST_SESSIONS, CC_SequenceComplete); b_u32(b, h); auth_pw(b, "", 0); b_2b(b, part2, p2l); b_u32(b, RH_NULL); Rsp sc = run(b);
+        tr_begin("o op=load id=%d rc=0 seq=1 complete_rc=%u", c->id, sc.rc); trhex("part1", c->part1, c->p1l); trhex("part2", part2, p2l);
+        if (sc.rc == 0) { Rd rd = rsp_params(&sc, 0); uint16_t dl; const uint8_t *d = r_2b(&rd, &dl); if (!rd.err) trhex("digest", d, dl); }
+        else { cmd_begin(b, ST_NO_SESSIONS, CC_FlushContext); b_u32(b, h); run(b); }
+        tr_end(); return; }
+    uint8_t mac[32], name[34]; int mok = c11o_hmac(b, h, mac) == 0; int nl = c11o_name(b, h, name);
     tr("o op=load id=%d rc=0 same_mac=%d same_name=%d", c->id, mok && !memcmp(mac, c->mac, 32), nl == c->nl && !memcmp(name, c->name, nl > 0 ? nl : 0));
     cmd_begin(b, ST_NO_SESSIONS, CC_FlushContext); b_u32(b, h); run(b);
 }
